@@ -119,8 +119,12 @@ func c09Run(w *Worker, tape *simrt.Tape) *Outcome {
 		{"witness", fx.Wits[0].Full, func() any { x, _ := witness.New(curve.ScalarField()); return x }},
 		{"public-witness", fx.Wits[0].Pub, func() any { x, _ := witness.New(curve.ScalarField()); return x }},
 	}
-	a := arts[ch(len(arts))]
+	a := arts[[]int{0, 0, 0, 1, 1, 2, 3, 4, 5}[ch(9)]]
 	enc := ch(3)
+	// fall back to the standard encoding where an artefact does not offer the drawn one
+	if _, _, offered := writeWith(a.obj, enc, io.Discard); !offered {
+		enc = encStd
+	}
 	unsafe := ch(3) == 0
 	scenario := []string{"roundtrip", "roundtrip", "roundtrip", "write-fault", "read-fault", "concurrent-decode"}[ch(6)]
 	if scenario == "concurrent-decode" && a.name != "ccs" {
